@@ -10,8 +10,8 @@ from props import c05
 
 IMPORTS = ("From Coq Require Import ZArith List String.\n"
            "From TV Require Import Common.PySlice Common.PyList Common.LSet Common.LMap Common.Harness "
-           "C05.Normalize C05.Model C05.Law C05.Corr C04.Model C04.Law C04.Corr.\n")
-PROPS = ["C04/Props.v"]
+           "C05.Normalize C05.Model C05.Law C05.Corr C04.Model C04.Law C04.Corr C04.Deep.\n")
+PROPS = ["C04/Props.v", "C04/DeepProps.v"]
 DRIVER = "c04_driver.py"
 CLAUSE = {1: "invalid-element-stored", 2: "illegal-length", 3: "trait-error-not-inert", 4: "builtin-error-not-inert",
           5: "rejected-value-not-refused", 6: "start-value-violates-invariant"}
@@ -21,6 +21,7 @@ KINDS = {
     "dict": ("corr_dict", "law_dict", "C04.Corr.dcase"),
     "nested": ("corr_nested", "law_nested", "C04.Corr.ncase"),
     "ndict": ("corr_ndict", "law_ndict", "C04.Corr.ndcase"),
+    "deep": ("corr_deep", "law_deep", "C04.Deep.dpcase"),
 }
 BOUNDS = [(0, None), (0, None), (0, 0), (0, 1), (0, 2), (0, 3), (1, None), (1, 1), (1, 2), (1, 3), (2, None), (2, 2),
           (2, 3), (3, None), (3, 3), (0, 5), (2, 6)]
@@ -429,7 +430,114 @@ def gen_ndict(rnd, ctx, maxops):
     return dict(kind="ndict", vk=vk, ib=list(ib), init=init, ops=ops)
 
 
-TERMS = {"list": list_term, "set": set_term, "dict": dict_term, "nested": nested_term, "ndict": ndict_term}
+# ---------------------------------------------------------------- List(List(...)) of any depth
+def item_term(r):
+    return C("Lst", [item_term(x) for x in r]) if isinstance(r, list) else C("Atom", r)
+
+
+def ttype_term(case):
+    t = C("TAtom", C(case["vk"]))
+    for mn, mx in reversed(case["bounds"]):
+        t = C("TList", t, mn, opt(mx))
+    return t
+
+
+def gop_term(g):
+    k = g[0]
+    if k == "GAppend":
+        return C(k, item_term(g[1]))
+    if k == "GExtend":
+        return C(k, [item_term(r) for r in g[1]])
+    if k in ("GInsert", "GSetInt"):
+        return C(k, g[1], item_term(g[2]))
+    if k == "GSetSlice":
+        return C(k, c05.sl_term(g[1]), [item_term(r) for r in g[2]])
+    if k == "GDelInt":
+        return C(k, g[1])
+    if k == "GDelSlice":
+        return C(k, c05.sl_term(g[1]))
+    if k == "GPop":
+        return C(k, opt(g[1]))
+    if k in ("GReverse", "GClear"):
+        return C(k)
+    raise ValueError(g)
+
+
+def deep_term(case, obs):
+    h = []
+    for op, ob in zip(case["ops"], obs):
+        t = C("DPAssign", item_term(op[1])) if op[0] == "Assign" else C("DPath", [Nat(j) for j in op[1]], gop_term(op[2]))
+        h.append((t, C("mkDP", out_l(ob["out"]), item_term(ob["after"]), Nat(ob["nev"]))))
+    return (ttype_term(case), item_term(case["init"]), h)
+
+
+def gen_deep(rnd, ctx, maxops):
+    vk = rnd.choice(["VInt", "VCInt", "VCInt", "VInc"])
+    depth = rnd.choice([2, 3, 3, 4])
+    bounds = [rnd.choice([(0, None), (0, None), (0, 2), (1, 3), (1, None), (0, 3), (2, 2)]) for _ in range(depth)]
+    # bounds[0] is the outermost list; a value of "level d" is an element of the list at nesting depth d (level depth = atom)
+
+    def valid(d):
+        """a valid stored value for level d (d = depth: an atom)"""
+        if d == depth:
+            return rnd.randint(1, 9)
+        mn, mx = bounds[d]
+        n = rnd.randint(mn, mx if mx is not None else mn + 2)
+        return [valid(d + 1) for _ in range(n)]
+
+    def raw(d):
+        """a raw value offered where a level-d value is expected: mostly valid, else broken somewhere"""
+        r = rnd.random()
+        if r < 0.6:
+            return valid(d)
+        if r < 0.7:                                        # wrong kind
+            return [1] if d == depth else rnd.choice([5, 200, 105])
+        if d == depth:
+            return rnd.choice([200, 105, 201, 103])        # invalid / convertible atom
+        v = valid(d)
+        if r < 0.85 and v:                                 # something broken further down
+            v[rnd.randrange(len(v))] = raw(d + 1)
+            return v
+        return [valid(d + 1) for _ in range(rnd.choice([0, 1, 2, 3, 4]))]     # possibly illegal length
+
+    init = valid(0)
+    ops = []
+    for _ in range(rnd.randint(1, maxops)):
+        if rnd.random() < 0.12:
+            op = ["Assign", raw(0)]
+            ctx.count("op:deep.Assign")
+        else:
+            plen = rnd.randint(0, depth - 1)
+            path = [rnd.choice([0, 0, 1, 1, 2, 3]) for _ in range(plen)]
+            d = plen + 1                                    # items of the addressed list are level-d values
+            n = 2                                           # length hint only
+            k = rnd.choice(["GAppend", "GAppend", "GExtend", "GInsert", "GSetInt", "GSetInt", "GSetSlice", "GDelInt",
+                            "GDelSlice", "GPop", "GReverse", "GClear"])
+            if k == "GAppend":
+                g = [k, raw(d)]
+            elif k == "GExtend":
+                g = [k, [raw(d) for _ in range(rnd.randint(0, 3))]]
+            elif k in ("GInsert", "GSetInt"):
+                g = [k, c05.gen_index(rnd, n), raw(d)]
+            elif k == "GSetSlice":
+                s = c05.gen_slice(rnd, n)
+                g = [k, s, [raw(d) for _ in range(rnd.randint(0, 3))]]
+            elif k == "GDelInt":
+                g = [k, c05.gen_index(rnd, n)]
+            elif k == "GDelSlice":
+                g = [k, c05.gen_slice(rnd, n)]
+            elif k == "GPop":
+                g = [k, None if rnd.random() < 0.4 else c05.gen_index(rnd, n)]
+            else:
+                g = [k]
+            op = ["Path", path, g]
+            ctx.count("op:deep.depth%d.path%d.%s" % (depth, plen, k))
+        ops.append(op)
+    return dict(kind="deep", vk=vk, bounds=[list(b) for b in bounds], init=init, ops=ops)
+
+
+TERMS = {"list": list_term, "set": set_term, "dict": dict_term, "nested": nested_term, "ndict": ndict_term,
+         "deep": deep_term}
 
 
 def op_name(kind, op):
@@ -442,6 +550,8 @@ def op_name(kind, op):
         return "NInner/" + c05.op_shape(op[2])
     if kind == "ndict" and op[0] == "Inner":
         return "Inner/" + c05.op_shape(op[2])
+    if kind == "deep" and op[0] == "Path":
+        return "Path%d/%s" % (len(op[1]), op[2][0])
     return op[0]
 
 
@@ -488,6 +598,11 @@ def corpus():
         ["Assign", [[101, [1, 2, 3]]], "deepcopy"], ["Assign", [[101, {"loose": [1, 2, 3]}]], "deepcopy"],
         ["Assign", [[3, [1]]], "orphan"], ["Assign", [[101, {"loose": [105]}]], "plain"], ["SetItem", 102, {"loose": [1, 200]}, True],
         ["Assign", [[101, {"loose": [4, 5]}], [102, [6]]], "orphan"], ["SetItem", 103, {"loose": [7]}, False]]))
+    cs.append(dict(kind="deep", vk="VCInt", bounds=[[1, 2], [1, None], [0, 2]], init=[[[1], []]], ops=[
+        ["Path", [0, 0], ["GAppend", 105]], ["Path", [0, 0], ["GAppend", 3]], ["Path", [0, 1], ["GAppend", 200]],
+        ["Path", [0], ["GSetInt", 1, [1, 2, 3]]], ["Path", [], ["GAppend", 7]], ["Path", [], ["GAppend", [[109]]]],
+        ["Path", [], ["GAppend", [[]]]], ["Path", [0], ["GClear"]], ["Assign", [[[4, 200]]]], ["Assign", [[[104]]]],
+        ["Path", [3], ["GClear"]], ["Path", [0, 0], ["GSetSlice", [None, None, -1], [7]]], ["Path", [0], ["GPop", None]]]))
     cs.append(dict(kind="list", vk="VCInt", minlen=2, maxlen=None, init=[1, 2], ops=[
         ["Pop", 0], ["DelInt", 9], ["DelSlice", [0, 1, None]], ["SetSlice", [0, 2, None], [105]],
         ["SetSlice", [0, 2, None], [105, 106, 7]], ["Extend", [103, 200]], ["Extend", [103]],
@@ -566,8 +681,9 @@ def run(ctx):
                        "case is non-trivial if some step raises; distinct = distinct JSON of the case")
     rnd = random.Random(ctx.seed)
     quick = ctx.tier == "quick"
-    counts = dict(list=(500, 12, 8), set=(250, 10), dict=(300, 10), nested=(300, 10), ndict=(250, 10)) if quick else \
-        dict(list=(12000, 30, 20), set=(6000, 25), dict=(8000, 25), nested=(8000, 25), ndict=(5000, 25))
+    counts = dict(list=(500, 12, 8), set=(250, 10), dict=(300, 10), nested=(300, 10), ndict=(250, 10), deep=(250, 10)) \
+        if quick else \
+        dict(list=(8000, 30, 20), set=(4000, 25), dict=(5000, 25), nested=(5000, 25), ndict=(3500, 25), deep=(4000, 25))
     if ctx.replay:
         rep = json.load(open(ctx.replay))["replay"]
         groups = {rep["case"]["kind"]: [rep["case"]]} if "case" in rep else {}
@@ -580,6 +696,7 @@ def run(ctx):
         groups["dict"] += [gen_dict(rnd, ctx, counts["dict"][1]) for _ in range(counts["dict"][0])]
         groups["nested"] += [gen_nested(rnd, ctx, counts["nested"][1]) for _ in range(counts["nested"][0])]
         groups["ndict"] += [gen_ndict(rnd, ctx, counts["ndict"][1]) for _ in range(counts["ndict"][0])]
+        groups["deep"] += [gen_deep(rnd, ctx, counts["deep"][1]) for _ in range(counts["deep"][0])]
     jobs = []
     for kind, cases in groups.items():
         if not cases:
@@ -601,7 +718,7 @@ def run(ctx):
             cfgs = [dict(target="obj", vk=vk, n=n, minlen=mn, maxlen=mx)
                     for vk in ("VInt", "VCInt")
                     for (n, mn, mx) in ((0, 0, 0), (0, 0, 2), (1, 1, 1), (1, 0, 3), (2, 2, 2), (2, 1, 3), (2, 0, None),
-                                        (3, 3, 3), (3, 1, 4), (3, 2, None), (4, 0, 4), (4, 3, 5), (5, 5, 5), (5, 2, 6))]
+                                        (3, 3, 3), (3, 1, 4), (4, 0, 4), (5, 2, 6))]
             gb, gbs = 6, 500
         c05.run_grid(ctx, cfgs, gb, gbs, "C04 single-operation grid on bounded List traits",
                      hist_kw=dict(to_term=TERMS["list"], header=header("list"), case_type=KINDS["list"][2],
